@@ -3392,7 +3392,7 @@ EB_API EbErrorType svt_av1_enc_stream_header(
 {
     EbErrorType              return_error = EB_ErrorNone;
 
-    if(!svt_enc_component)
+    if(!svt_enc_component || !output_stream_ptr)
         return EB_ErrorBadParameter;
 
     EbEncHandle             *enc_handle  = (EbEncHandle*)svt_enc_component->p_component_private;
@@ -3675,6 +3675,8 @@ EB_API EbErrorType svt_av1_enc_send_picture(
     EbComponentType      *svt_enc_component,
     EbBufferHeaderType   *p_buffer)
 {
+    if (svt_enc_component == NULL || svt_enc_component->p_component_private == NULL || p_buffer == NULL)
+        return EB_ErrorBadParameter;
     EbEncHandle          *enc_handle_ptr = (EbEncHandle*)svt_enc_component->p_component_private;
     EbObjectWrapper      *eb_wrapper_ptr;
 
@@ -3735,6 +3737,8 @@ EB_API EbErrorType svt_av1_enc_get_packet(
     unsigned char          pic_send_done)
 {
     EbErrorType             return_error = EB_ErrorNone;
+    if (svt_enc_component == NULL || svt_enc_component->p_component_private == NULL || p_buffer == NULL)
+        return EB_ErrorBadParameter;
     EbEncHandle          *enc_handle = (EbEncHandle*)svt_enc_component->p_component_private;
     EbObjectWrapper      *eb_wrapper_ptr = NULL;
     EbBufferHeaderType    *packet;
@@ -3765,7 +3769,7 @@ EB_API EbErrorType svt_av1_enc_get_packet(
 EB_API void svt_av1_enc_release_out_buffer(
     EbBufferHeaderType  **p_buffer)
 {
-    if (p_buffer && (*p_buffer)->wrapper_ptr)
+    if (p_buffer && *p_buffer && (*p_buffer)->wrapper_ptr)
     {
         if((*p_buffer)->p_buffer)
            EB_FREE((*p_buffer)->p_buffer);
@@ -3783,6 +3787,8 @@ EB_API EbErrorType svt_av1_get_recon(
     EbBufferHeaderType   *p_buffer)
 {
     EbErrorType           return_error = EB_ErrorNone;
+    if (svt_enc_component == NULL || svt_enc_component->p_component_private == NULL || p_buffer == NULL)
+        return EB_ErrorBadParameter;
     EbEncHandle          *enc_handle = (EbEncHandle*)svt_enc_component->p_component_private;
     EbObjectWrapper      *eb_wrapper_ptr = NULL;
 
